@@ -48,7 +48,7 @@ func modeC18() {
 	u := newFakeUp("u1", func() *vtrace.T { return vtrace.OpenNull() })
 	defer u.close()
 	kinds := []string{"udp", "tcp", "http"}
-	for _, fk := range []string{"inuse", "badproto", "badcert"} {
+	for _, fk := range []string{"inuse", "badproto", "badcert", "badcert-https"} {
 		for pos := 1; pos <= 3; pos++ {
 			cfg := &router.Config{Upstreams: []router.UpstreamConfig{{Tag: "u1", Addr: "udp://" + u.addr}}, Rules: []router.RuleConfig{{Forward: "u1"}}}
 			ports := make([]int, 3)
@@ -79,6 +79,9 @@ func modeC18() {
 					case "badcert":
 						sc.Protocol = "tls"
 						sc.Tls.Cert, sc.Tls.Key = "/nonexistent/cert.pem", "/nonexistent/key.pem"
+					case "badcert-https":
+						sc.Protocol = "https"
+						sc.Tls.Cert, sc.Tls.Key = "/nonexistent/cert.pem", "/nonexistent/key.pem"
 					}
 				}
 				cfg.Servers = append(cfg.Servers, sc)
@@ -97,6 +100,11 @@ func modeC18() {
 			for i, k := range kinds {
 				if i+1 < pos && !canBind(k, ports[i]) {
 					rebound = false
+				}
+				// the listener that failed holds nothing either (its port was never ours when it was in use)
+				if i+1 == pos && fk != "inuse" && !canBind(map[bool]string{true: "udp", false: "tcp"}[k == "udp" && fk == "badproto"], ports[i]) {
+					rebound = false
+					es += " [the failing listener left its socket open]"
 				}
 			}
 			if !canBind("tcp", mport) {
